@@ -224,3 +224,8 @@ def _r12_5(ctx):
           ok_callers.append(any(always_with(cb, cc.bb, bi) for bi in rs))
         ok = bool(ok_callers) and all(ok_callers)
       ctx.ob('R12.6', cm.n, f'self.{fld} is reset after it is flushed', ok, f'Statistic flushed from self.{fld} is re-added by every later commit of the same update call: the statistic depends on the commit interval', where(cm, c.line))
+
+
+# sensitivity pack (thorough tier): each seeded edit must be reported by the named rule instance
+MUTANTS = [{'name': 'seeded-C12-a', 'patch': 'C12-a/patch.diff', 'expect': ('R12.5', 'index_utxo_entries', 'merged(cached entry')},
+           {'name': 'seeded-C12-b', 'patch': 'C12-b/patch.diff', 'expect': ('R12.6', 'Updater::commit', 'sat_ranges_since_flush')}]
